@@ -1,6 +1,6 @@
 (* C15, stage 5c: struct / union / exception bodies, enum values and enums. *)
 From PVIdl Require Import Comb Ast Parser Print Proofs.Total Proofs.RoundTok Proofs.RoundPath Proofs.RoundAnn Proofs.RoundTy
-  Proofs.RoundKit Proofs.RoundNum Proofs.RoundConst Proofs.RoundDecl Proofs.RoundField.
+  Proofs.RoundKit Proofs.Lex Proofs.RoundNum Proofs.RoundConst Proofs.RoundDecl Proofs.RoundField.
 From Coq Require Import ZifyN ZifyNat ZifyBool.
 From Coq Require String.
 Import String.StringSyntax.
@@ -55,7 +55,7 @@ Definition evalue_rest (v : option (blank * cint * blank)) (X : list byte) : lis
   match v with Some (_, _, b2) => pr_blank b2 X | None => X end.
 
 Lemma evalue_steps v X : match v with Some (b1, i, b2) => wf_blank b1 && wf_int i && wf_blank b2 | None => true end = true ->
-  nb X = true -> noeq X = true -> (match v with Some (_, _, b2) => b2 = [] -> nid X = true | None => True end) ->
+  nb X = true -> noeq X = true -> (match v with Some (_, i, b2) => int_stops i (pr_blank b2 X) = true | None => True end) ->
   sfx (pr_evalue v X) whole ->
   exists o, opt p_evalue (pr_evalue v X) = POk (evalue_rest v X) (match v with Some (_, i, _) => Some (erase_int i) | None => None end) /\
             opt (p_blank lf) (evalue_rest v X) = POk X o.
@@ -64,14 +64,19 @@ Proof.
   - bsplit Hw. destruct (oblank lf whole Hlf b2 X ltac:(assumption) Hn ltac:(sfx_of S)) as [o E]. exists o. split; [|exact E].
     apply opt_ok. unfold p_evalue. tg sym_enum_eq (txt "=").
     obk lf whole Hlf S ltac:(apply int_head; auto; intros c Hc; apply stop_nb with (k := [c]); cbn; now apply digit_stop).
-    apply rt_int; auto; [|eapply sfx_lt; [exact Hlf|sfx_of S]]. apply blank_then; auto with bsdb.
+    apply rt_int; auto. eapply sfx_lt; [exact Hlf|sfx_of S].
   - exists None. split.
     + apply opt_err. unfold p_evalue. apply pbind_err. destruct X as [|c X]; [exact I|]. apply tag_hd_ne.
       cbn in Hq. now apply negb_true_iff in Hq.
     + apply opt_err, blank_err, Hn.
 Qed.
 
-Theorem rt_enumval e K : wf_enumval e = true -> stop K = true -> (enumval_ends_word e = true -> wstop K = true) ->
+Lemma bs_endc' b : blank_start b = true -> endc b = true.
+Proof. destruct b; vm_compute; intro H; try reflexivity; discriminate H. Qed.
+
+(* [enumval_ends_word e]: the text of the value ends with its name or with its number; then K must not continue it *)
+Theorem rt_enumval e K : wf_enumval e = true -> stop K = true ->
+  (enumval_ends_word e = true -> match ev_val e with Some (_, i, _) => int_stops i K = true | None => wstop K = true end) ->
   sfx (pr_enumval e K) whole -> p_enum_value lf (pr_enumval e K) = POk K (erase_enumval e).
 Proof.
   intros Hw Hk Hew S. destruct e as [name b1 v a sp b4]. unfold wf_enumval, pr_enumval, erase_enumval, enumval_ends_word in *.
@@ -83,8 +88,6 @@ Proof.
   { intros g G1 G2 G3 GK. unfold X. destruct a as [l|]; cbn [pr_oanns pr_anns]; [exact G1|].
     destruct sp as [|[|] bl]; cbn [pr_sep sep_byte]; auto. cbn in B4. rewrite orb_false_r in B4. destruct b4; [exact GK|discriminate]. }
   assert (NX : nb X = true) by (apply HX; try reflexivity; apply stop_nb, Hk).
-  assert (IX : sep_none sp = true -> is_none a = true -> is_nil b4 = true -> wstop K = true -> nid X = true).
-  { intros. apply HX; try reflexivity. now apply wstop_nid. }
   rewrite p_enum_value_eq.
   rewrite (rt_ident name).
   2: assumption.
@@ -95,9 +98,12 @@ Proof.
   obk lf whole Hlf S ltac:(destruct v as [[[? ?] ?]|]; cbn [pr_evalue]; [reflexivity|exact NX]).
   destruct (evalue_steps v X ltac:(assumption) NX) as [ov [E1 E2]].
   { apply HX; try reflexivity. apply stop_noeq, Hk. }
-  { destruct v as [[[bv i] b3]|]; [|exact I]. intros ->. unfold X. destruct a as [l|]; cbn [pr_oanns pr_anns]; [reflexivity|].
-    destruct sp as [|[|] bl]; cbn [pr_sep sep_byte]; try reflexivity. cbn in B4. rewrite orb_false_r in B4. destruct b4; [|discriminate].
-    cbn [pr_blank]. apply wstop_nid, Hew. reflexivity. }
+  { destruct v as [[[bv i] b3]|]; [|exact I]. match goal with H : wf_blank bv && wf_int i && wf_blank b3 = true |- _ => bsplit H end.
+    destruct b3 as [|a3 b3].
+    - cbn [pr_blank]. unfold X. destruct a as [l|]; cbn [pr_oanns pr_anns]; [apply int_stops_end; reflexivity|].
+      destruct sp as [|[|] bl]; cbn [pr_sep sep_byte]; try (apply int_stops_end; reflexivity). cbn in B4. rewrite orb_false_r in B4.
+      destruct b4; [|discriminate]. cbn [pr_blank]. apply Hew. reflexivity.
+    - apply int_stops_end. unfold endk. apply blank_then; [assumption|exact bs_endc'|discriminate]. }
   { sfx_of S. }
   change (fun i => do i0, _ <- tag sym_enum_eq i;; do i1, _ <- opt (p_blank lf) i0;; p_int_constant lf i1) with p_evalue.
   rewrite E1. cbn [pbind]. rewrite E2. cbn [pbind]. subst X.
@@ -134,6 +140,23 @@ Proof.
   clear - L. lia.
 Qed.
 
+(* what follows the name of a value is no word character, no '-', no '.' *)
+Lemma lstopc_bs b : blank_start b = true -> lstopc b = true.
+Proof. destruct b; vm_compute; intro H; try reflexivity; discriminate H. Qed.
+Lemma enumvals_after_name e rest k : wf_enumvals (e :: rest) = true ->
+  exists Y, pr_enumvals (e :: rest) (x7d :: k) = ev_cname e ++ Y /\ lstopk Y = true.
+Proof.
+  cbn [wf_enumvals pr_enumvals]. intros Hw. bsplit Hw. unfold pr_enumval. eexists. split; [reflexivity|].
+  destruct e as [name b1 v a sp b4]. unfold wf_enumval in Hw. cbn [ev_cname ev_b1 ev_val ev_canns ev_sep ev_b4] in *. bsplit Hw.
+  assert (B4 : is_nil b4 || (negb (is_none a) && sep_none sp) = true) by assumption.
+  unfold lstopk. apply blank_then; auto using lstopc_bs. intros ->.
+  destruct v as [[[bv i] b3]|]; cbn [pr_evalue]; [reflexivity|].
+  destruct a as [l|]; cbn [pr_oanns pr_anns]; [reflexivity|]. destruct sp as [|[|] bl]; cbn [pr_sep sep_byte]; try reflexivity.
+  cbn in B4. rewrite orb_false_r in B4. destruct b4; [|discriminate]. cbn [pr_blank].
+  destruct rest as [|e2 rest2]; [reflexivity|]. exfalso.
+  match goal with H : enumval_glue _ _ = true |- _ => unfold enumval_glue, enumval_ends_word in H; cbn in H; discriminate H end.
+Qed.
+
 Lemma enumvals_loop : forall vs k fuel, wf_enumvals vs = true -> sfx (pr_enumvals vs (x7d :: k)) whole ->
   length (pr_enumvals vs (x7d :: k)) < fuel ->
   many0 fuel (p_enum_value lf) (pr_enumvals vs (x7d :: k)) = POk (x7d :: k) (map erase_enumval vs).
@@ -143,9 +166,13 @@ Proof.
   - bsplit Hw. remember (pr_enumvals rest (x7d :: k)) as K eqn:EK.
     assert (SK : stop K = true).
     { subst K. destruct rest as [|e2 rest]; [reflexivity|]. cbn [pr_enumvals wf_enumvals] in *. bsplit W. apply enumval_head; auto using idh_stop. }
-    assert (EW : enumval_ends_word e = true -> wstop K = true).
-    { intros E. match goal with H : is_nil rest || negb (enumval_ends_word e) = true |- _ => rewrite E in H; cbn [negb] in H;
-        rewrite orb_false_r in H end. destruct rest; [|discriminate]. subst K. reflexivity. }
+    assert (EW : enumval_ends_word e = true -> match ev_val e with Some (_, i, _) => int_stops i K = true | None => wstop K = true end).
+    { intros E. destruct rest as [|e2 rest2].
+      - subst K. cbn [pr_enumvals]. destruct (ev_val e) as [[[? i] ?]|]; [apply int_stops_end|]; reflexivity.
+      - match goal with H : enumval_glue e (ev_cname e2) = true |- _ => unfold enumval_glue in H; rewrite E in H; cbn [negb orb] in H end.
+        destruct (ev_val e) as [[[? i] ?]|]; [|discriminate].
+        destruct (enumvals_after_name e2 rest2 k ltac:(assumption)) as [Y [EY HY]]. rewrite EK, EY.
+        now rewrite (int_stops_local i (ev_cname e2) Y HY). }
     pose proof (len_enumval e K ltac:(assumption)) as L.
     rewrite (many0_step _ fu _ K (erase_enumval e) (rt_enumval e K ltac:(assumption) SK EW S) L).
     rewrite EK. rewrite (IH k fu ltac:(assumption)); [reflexivity|rewrite <- EK; sfx_of S|rewrite <- EK; clear - L Hf; lia].
